@@ -657,7 +657,7 @@ Qed.
 Lemma run_cb_c w c : CN w -> CN (run_cb w c).
 Proof.
   intros H. unfold run_cb. destruct (wcrash w); auto. destruct c.
-  - apply resume_c; auto.
+  - destruct (_ <? _)%nat; [apply resume_c; auto|apply crashw_c; auto].
   - apply setk_c; [apply now_check|exact H].
   - destruct (res_trig_get _ _) as [[k0 r0]|] eqn:E; auto with cdb;
       (apply upd_node_keep; [intros ?; reflexivity|]; apply setk_c; [|exact H]; eapply now_res_trig_get; eauto).
